@@ -97,6 +97,9 @@ func (fr *Frame) cutLoop(li *loopInfo) *State {
 	// 1. invariant holds on entry
 	for _, cl := range fr.loopClauses(li, "invariant") {
 		env := fr.envAt(h, entry, entryPhis)
+		if li.parent != nil && li.parent.headState != nil {
+			env.pre = li.parent.headState
+		}
 		g := c.evalBool(env, cl.Expr)
 		c.oblige(entry, "inv-entry", cl.Label, cl.Props, g, h.Instrs[0].Pos(), fmt.Sprintf("loop %d invariant holds on entry: %s", li.ordinal, cl.Src))
 	}
@@ -200,6 +203,9 @@ func (fr *Frame) cutLoop(li *loopInfo) *State {
 	// 4. assume the invariant at the head of an arbitrary iteration
 	for _, cl := range fr.loopClauses(li, "invariant") {
 		env := fr.envAt(h, st, nil)
+		if li.parent != nil && li.parent.headState != nil {
+			env.pre = li.parent.headState
+		}
 		c.assume(st.reach, c.evalBool(env, cl.Expr))
 	}
 	li.headState = st.clone()
@@ -235,6 +241,9 @@ func (fr *Frame) backEdge(b, h *ssa.BasicBlock, e *State) {
 	for _, cl := range fr.loopClauses(li, "invariant") {
 		env := fr.envAt(b, e, back)
 		env.atLatch = true
+		if li.parent != nil && li.parent.headState != nil {
+			env.pre = li.parent.headState
+		}
 		g := c.evalBool(env, cl.Expr)
 		o := c.oblige(e, "inv-preserve", cl.Label, cl.Props, g, pos, fmt.Sprintf("loop %d invariant is preserved: %s", li.ordinal, cl.Src))
 		if o != nil && li.headState != nil {
